@@ -82,6 +82,28 @@ def PoolDelta.priceImpact (W U : Nat) (p : ImpactParams) (d : PoolDelta) : Optio
   | none => none
   | some x => some (x, balanceChangeOf d.initialDiff d.nextDiff)
 
+/-- `SwapMarketExt::swap_impact_value` (and the same rule in `PositionExt::position_price_impact`): the
+virtual inventory is consulted only when the impact on the real pool is NEGATIVE, with the same USD deltas
+and prices applied to the virtual pool amounts, and the WORSE (smaller) of the two impacts is taken. -/
+def swapImpactWithVirtual (W U : Nat) (p : ImpactParams) (poolL poolS : Nat) (virt : Option (Nat × Nat))
+    (dL dS : Int) (pL pS : Nat) (includeVirtual : Bool) : Option (Int × BalanceChange) :=
+  match PoolDelta.tryNew W poolL poolS dL dS pL pS with
+  | none => none
+  | some d =>
+    match d.priceImpact W U p with
+    | none => none
+    | some (x, bc) =>
+      if decide (0 ≤ x) || !includeVirtual then some (x, bc) else
+      match virt with
+      | none => some (x, bc)
+      | some (vL, vS) =>
+        match PoolDelta.tryNew W vL vS dL dS pL pS with
+        | none => none
+        | some dv =>
+          match dv.priceImpact W U p with
+          | none => none
+          | some (y, bcv) => if y < x then some (y, bcv) else some (x, bc)
+
 /-- the exact reverse of a balance change (next and current swapped). -/
 def PoolDelta.rev (d : PoolDelta) : PoolDelta :=
   { curL := d.nextL, curS := d.nextS, nextL := d.curL, nextS := d.curS }
